@@ -257,7 +257,8 @@ Section Sim.
       destruct k; cbn [m_open app] in SK.
       - rewrite (impl_peek_dispatch ps s p0 [] 36%N _ eq_refl SK space_36). cbn [length]. rewrite Nat.add_0_r. exact D.
       - rewrite (impl_peek_dispatch ps s p0 [] 92%N _ eq_refl SK space_92). cbn [length]. rewrite Nat.add_0_r. exact D.
-      - rewrite (impl_peek_dispatch ps s p0 [] 92%N _ eq_refl SK space_92). cbn [length]. rewrite Nat.add_0_r. exact D. }
+      - rewrite (impl_peek_dispatch ps s p0 [] 92%N _ eq_refl SK space_92). cbn [length]. rewrite Nat.add_0_r. exact D.
+      - rewrite (impl_peek_dispatch ps s p0 [] 36%N _ eq_refl SK space_36). cbn [length]. rewrite Nat.add_0_r. exact D. }
     set (st0 := p0 + length (m_open k)).
     set (pb := st0 + length (unparse_items b)).
     assert (SKb : skipn st0 s = unparse_items b ++ tr ++ m_close k ++ rest) by (apply skipn_shift in SK; exact SK).
@@ -270,7 +271,9 @@ Section Sim.
       - rewrite (impl_peek_dispatch mps s pb tr 92%N _ W SKc space_92).
         exact (dispatch_math_close cx mps V' s _ tr _ _ 92%N [41%N] rest M' E eq_refl (or_intror eq_refl)).
       - rewrite (impl_peek_dispatch mps s pb tr 92%N _ W SKc space_92).
-        exact (dispatch_math_close cx mps V' s _ tr _ _ 92%N [93%N] rest M' E eq_refl (or_intror eq_refl)). }
+        exact (dispatch_math_close cx mps V' s _ tr _ _ 92%N [93%N] rest M' E eq_refl (or_intror eq_refl)).
+      - rewrite (impl_peek_dispatch mps s pb tr 36%N _ W SKc space_36).
+        exact (dispatch_math_close cx mps V' s _ tr _ _ 36%N [36%N] rest M' E eq_refl (or_introl eq_refl)). }
     set (A := absorb cx mps st0 cs_empty b).
     assert (SM : stop_matches (g_stop (math_opts k))
                    (mk (m_tok k) (m_close k) (pb + length tr) (pb + length tr + length (m_close k)) tr []) = true)
@@ -285,7 +288,8 @@ Section Sim.
         [discriminate| |exact SKb|exact S1].
       destruct k; cbn [m_close app] in *; [rewrite (hd_error_app2 tr rest [] 36%N)
                                           |rewrite (hd_error_app2 tr (41%N :: rest) [41%N] 92%N)
-                                          |rewrite (hd_error_app2 tr (93%N :: rest) [93%N] 92%N)]; exact OKB. }
+                                          |rewrite (hd_error_app2 tr (93%N :: rest) [93%N] 92%N)
+                                          |rewrite (hd_error_app2 tr (36%N :: rest) [36%N] 36%N)]; exact OKB. }
     pose proof (rule_general_stop s cx _ mps (math_opts k) st0 _ _ _ eq_refl eq_refl eq_refl S2) as S3.
     cbn [mk tend] in S3.
     pose proof (rule_tmath s cx _ ps k p0 _ _ _ T1 E S3) as S4.
@@ -517,7 +521,8 @@ Section Sim.
         destruct mk; cbn [m_open app] in SK'.
         - rewrite (impl_peek_dispatch ps s pos ws 36%N _ W SK' space_36). exact D.
         - rewrite (impl_peek_dispatch ps s pos ws 92%N _ W SK' space_92). exact D.
-        - rewrite (impl_peek_dispatch ps s pos ws 92%N _ W SK' space_92). exact D. }
+        - rewrite (impl_peek_dispatch ps s pos ws 92%N _ W SK' space_92). exact D.
+        - rewrite (impl_peek_dispatch ps s pos ws 36%N _ W SK' space_36). exact D. }
       pose proof (math_run n IH ps (pos + length ws) ws mk b tr fol SD M ltac:(lia) Wt OKB DL' SK0) as G.
       rewrite node_of_math in G. cbn zeta in G.
       cbn [absorb_item item_ws] in H. rewrite node_of_math in H. cbn zeta in H.
